@@ -260,9 +260,21 @@ def _count_descr(e: ast.AST):
             return None
         lo = norm(it.slice.lower) if it.slice.lower else ""
         hi = norm(it.slice.upper) if it.slice.upper else ""
-        rng = {("-self._n_fermions", "op_index"): "lower", ("-self._n_fermions", ""): "all",
-               ("op_index + 1", ""): "higher", ("-self._n_fermions", "op_index + 1"): "lower-or-self"}.get((lo, hi))
-        if rng is None:
+        # operators are ordered bosons | ladders | spins | fermions
+        starts = {"-self._n_fermions": "fermions", "len(powers) - self._n_fermions": "fermions",
+                  "self._n_inf_order + self._n_spins": "fermions", "self._n_inf_order": "spins+fermions",
+                  "self._n_bosons + self._n_ladders": "spins+fermions", "": "all", "0": "all"}
+        if hi == "op_index" and lo in starts:
+            rng = "lower" if starts[lo] == "fermions" else f"lower (from the first of {starts[lo]})"
+        elif hi == "" and lo in starts:
+            rng = "all" if starts[lo] == "fermions" else f"all of {starts[lo]}"
+        elif (lo, hi) == ("op_index + 1", ""):
+            rng = "higher"
+        elif (lo, hi) == ("op_index", ""):
+            rng = "higher-or-self"
+        elif hi == "op_index + 1" and lo in starts and starts[lo] == "fermions":
+            rng = "lower-or-self"
+        else:
             return None
         out.add((kind, rng))
     return out
